@@ -583,6 +583,29 @@ def _gen_symbols(o, rng, tier):
         o.both(cls, 'symbol', t, term_symbol(name), 1.0)
 
 
+def _gen_pairs(o, rng, tier):
+    """two literals in one program (one data object): spellings that denote equal-looking but different values — an
+    integer next to the float of the same magnitude, text next to the byte list of the same characters, the same literal
+    twice, a radix form next to its decimal form — must each still read back as what they spell"""
+    ints = [0, 1, 2, 3, 9, 10, 255, 1000, 65536, 2147483647] + [rng.randrange(0, 10 ** rng.randrange(1, 9)) for _ in range(10 if tier == 'quick' else 80)]
+    for n in ints:
+        fi, ff = f'(i {n})', term_float(float(n))
+        o.run('pr', 'pair', f'{n}, {n}.0', f'(l {fi} {ff})')
+        o.run('pr', 'pair', f'{n}.0, {n}', f'(l {ff} {fi})')
+        o.run('pr', 'pair', f'{n}, {n}.0, {n}', f'(l {fi} {ff} {fi})')
+        o.run('pr', 'pair', f'{n}.0 = {n}', f'(p {ff} {fi})')
+    for t in ['a', 'ab', 'z9', '5']:
+        cl = '(cl' + ''.join(f' {ord(c)}' for c in t) + ')'
+        bl = '(bl' + ''.join(f' {ord(c)}' for c in t) + ')'
+        o.run('pr', 'pair', f'"{t}", \'{t}\'', f'(l {cl} {bl})')
+        o.run('pr', 'pair', f'\'{t}\', "{t}"', f'(l {bl} {cl})')
+        o.run('pr', 'pair', f'"{t}", "{t}"', f'(l {cl} {cl})')
+    o.run('pr', 'pair', '5, "5"', '(l (i 5) (cl 53))')
+    o.run('pr', 'pair', '"5", 5', '(l (cl 53) (i 5))')
+    o.run('pr', 'pair', '016_ff, 255, 255.0', f'(l (i 255) (i 255) {term_float(255.0)})')
+    o.run('pr', 'pair', '1.5, 1, 2, 2.5', f'(l {term_float(1.5)} (i 1) (i 2) {term_float(2.5)})')
+
+
 def gen_cases(seed, tier='quick'):
     """rows (LIT and RUN mixed) for the property's quantifier; fills the table behind `expected(row)`"""
     _EXPECTED.clear()
@@ -594,6 +617,7 @@ def gen_cases(seed, tier='quick'):
     _gen_charlists(o, rng, tier)
     _gen_bytelists(o, rng, tier)
     _gen_symbols(o, rng, tier)
+    _gen_pairs(o, rng, tier)
     return o.rows
 
 
